@@ -20,15 +20,19 @@ ElemsOf(d) == CASE d = 1 -> Elems1D [] d = 2 -> Elems2D [] d = 3 -> Elems3D
 Measure(d) == CASE d = 1 -> RI(3) [] d = 2 -> RI(6) [] d = 3 -> RI(12)
 (* beam: length 3, rectangular section 1/2 x 1/4 *)
 BeamArea == R(1, 8)
+BeamDirs == {"ur", "ul", "dl", "dr"}
 
 Configs ==
-         {[phys |-> "elastic", dim |-> d, elem |-> e, rho |-> r, thick |-> t] : d \in {2, 3}, e \in Elems2D \cup Elems3D, r \in Rhos, t \in Thicks}
-    \cup {[phys |-> "thermal", dim |-> d, elem |-> e, rho |-> r, thick |-> t] : d \in {1, 2, 3}, e \in Elems1D \cup Elems2D \cup Elems3D, r \in Rhos, t \in Thicks}
-    \cup {[phys |-> p, dim |-> d, elem |-> e, rho |-> r, thick |-> One] : p \in {"beamEB", "beamTimo"}, d \in {1, 2, 3}, e \in Elems1D, r \in Rhos}
+         {[phys |-> "elastic", dim |-> d, elem |-> e, rho |-> r, thick |-> t, dir |-> "ur"] : d \in {2, 3}, e \in Elems2D \cup Elems3D, r \in Rhos, t \in Thicks}
+    \cup {[phys |-> "thermal", dim |-> d, elem |-> e, rho |-> r, thick |-> t, dir |-> "ur"] : d \in {1, 2, 3}, e \in Elems1D \cup Elems2D \cup Elems3D, r \in Rhos, t \in Thicks}
+    \* dir: the quadrant the member is drawn towards (up-right, up-left, down-left, down-right): the local frame of a member
+    \* drawn towards -x is a reflection of the global one in 2-D, and none of the expected attributes depends on it
+    \cup {[phys |-> p, dim |-> d, elem |-> e, rho |-> r, thick |-> One, dir |-> q] : p \in {"beamEB", "beamTimo"}, d \in {1, 2, 3}, e \in Elems1D, r \in Rhos, q \in BeamDirs}
 
 Valid(c) ==
     /\ c.phys \in {"elastic", "thermal"} => c.elem \in ElemsOf(c.dim)
     /\ (c.dim # 2 /\ c.phys \in {"elastic", "thermal"}) => c.thick = One      \* thickness only exists in 2D
+    /\ (c.dim = 1 /\ c.phys \in {"beamEB", "beamTimo"}) => c.dir \in {"ur", "ul"}       \* a 1-D member is drawn towards +x or -x
 
 RigidModes(d) == (d * (d + 1)) \div 2      \* translations + rotations
 ExpKernel(c) ==
